@@ -225,6 +225,17 @@ def keypair (seed : Bytes) : KeyPair :=
   let sk := rho ++ key ++ tr ++ s1.flatMap polyEtaPack ++ s2.flatMap polyEtaPack ++ t0.flatMap polyT0Pack
   ⟨pk, sk⟩
 
+/-- did the rejection-sampling loops of key generation fill all 256 coefficients of every polynomial?
+(the library loops until they do; the model gives them 64 blocks — this is the decidable form of the
+hypothesis `Expanded` of the end-to-end theorems, evaluated by the driver on every seed of a run) -/
+def keygenFilled (seed : Bytes) : Bool :=
+  let buf := shake256 seed 128
+  let rho := buf.take 32
+  let rhoPrime := (buf.drop 32).take 64
+  (matrixExpand shake128 rho).all (fun row => row.all fun p => p.length == 256) &&
+    ((List.range L).all fun i => (polyUniformEta shake256 rhoPrime i).length == 256) &&
+    ((List.range K).all fun i => (polyUniformEta shake256 rhoPrime (L + i)).length == 256)
+
 /-- positions of the non-zero coefficients of a hint row, ascending -/
 def rowPositions (row : Poly) : List Nat := (List.range N).filter (fun j => row.getD j 0#32 != 0#32)
 
